@@ -17,9 +17,11 @@ CONSTANTS
   Faults = {}
   WrongKinds = {}
   MsgBudget = 2
+  InitSerial = 0
   ScriptSel = "svc"
   V0 = 15
   V1 = 19
+
 VIEW view
 INVARIANTS ObserverOk NoPanicSite BoundaryConsistent FlagsOk StoppedClean
 CHECK_DEADLOCK FALSE
